@@ -177,6 +177,8 @@ void sim_advance(uint64_t ticks);
 int sim_fd_new(uint64_t initial);
 bool sim_fd_readable(int fd);
 bool sim_fd_valid(int fd);
+/** true once two different simulated threads have read the descriptor */
+bool sim_fd_shared(int fd);
 int sim_fd_open_count(void);
 /** probability (num/1024) of an injected EINTR on descriptor I/O */
 void sim_fd_set_eintr(uint32_t per1024);
